@@ -61,9 +61,12 @@ func VC16_ThirdParty() {
 	otherCert := vsym.Cert(other, s2)
 	content := vsym.BytesN("content", 4)
 	var smimecap []byte
-	withCap := vsym.Bool("smimecap")
-	if withCap {
-		smimecap = vsym.BytesN("smimecap.body", 48) // opaque capability list, encodes longer than messageDigest
+	// opaque capability list of several sizes: the signed attributes then take 105 bytes (absent),
+	// 127/128 bytes (the one-byte / 0x81 DER length boundary), 168 bytes (what OpenSSL's default list
+	// gives) and more than 255 bytes (0x82 length form, as with additional attributes)
+	capLen := []int{0, 7, 8, 48, 150}[vsym.Pick("smimecap", 5)]
+	if capLen != 0 {
+		smimecap = vsym.BytesN("smimecap.body", capLen)
 	}
 	outer, nullParams, attached := vsym.Bool("outer"), vsym.Bool("null"), vsym.Bool("attached")
 	blob, attrsInner := vThirdPartyBlob(signer, cert.Raw, cert.RawIssuer, serial, content, time.Now().UTC(), smimecap, outer, nullParams, attached)
